@@ -278,6 +278,10 @@ class RaftOracle(object):
                     if self.tainted_from is None:
                         self.tainted_from = p
             if newly:
+                if state == 2 and self.G[newly[-1]][2] != term:
+                    # reach probe: a leader decided a position whose entry is of an older term without an entry of its
+                    # own term on top (Raft 5.4.2 forbids it; zero on the pinned tree)
+                    w.probe('leader_decided_old_term_entry')
                 self._majority(host, node, log, newly, state, term)
 
     def _index_G(self, p, e):
